@@ -5,6 +5,7 @@ CONSTANTS
   FailCs = {}
   FailNs = {}
   PruneTs = {250}
+  RgsSnaps = {}
   WithReload = FALSE
 CONSTRAINT Bound
 VIEW View
